@@ -319,6 +319,55 @@ impl Payload for PR {
 }
 drop_impl!(PR);
 
+/// 1 KiB payload: exercises the by-address path with a large copy.
+pub struct PBIG {
+    id: u32,
+    b: [u8; 1020],
+}
+impl Payload for PBIG {
+    const NAME: &'static str = "PBIG";
+    const DROPPABLE: bool = true;
+    fn make(id: u32) -> Self {
+        let mut b = [0u8; 1020];
+        for (i, x) in b.iter_mut().enumerate() {
+            *x = mix(id, (i % 61) as u32) as u8 ^ (i as u8);
+        }
+        PBIG { id, b }
+    }
+    fn id(&self) -> u32 {
+        self.id
+    }
+    fn verify(&self) -> bool {
+        self.b.iter().enumerate().all(|(i, x)| *x == mix(self.id, (i % 61) as u32) as u8 ^ (i as u8))
+    }
+}
+drop_impl!(PBIG);
+
+/// Over-aligned non-zero-sized payload.
+#[repr(align(64))]
+pub struct PA64 {
+    id: u32,
+    b: [u8; 20],
+}
+impl Payload for PA64 {
+    const NAME: &'static str = "PA64";
+    const DROPPABLE: bool = true;
+    fn make(id: u32) -> Self {
+        let mut b = [0u8; 20];
+        for (i, x) in b.iter_mut().enumerate() {
+            *x = mix(id, i as u32) as u8;
+        }
+        PA64 { id, b }
+    }
+    fn id(&self) -> u32 {
+        self.id
+    }
+    fn verify(&self) -> bool {
+        (0..20).all(|i| self.b[i] == mix(self.id, i as u32) as u8) && (self as *const Self as usize) % 64 == 0
+    }
+}
+drop_impl!(PA64);
+
 /// Heap-owning payload (fuzz / Miri tiers): a double drop is a double free.
 pub struct PB(Box<[u8; 24]>, u32);
 impl Payload for PB {
